@@ -55,23 +55,34 @@ double check_reproduction(TasmanianSparseGrid const &g, CaseCtx &c, Rng &rng, st
     bool tr = g.isSetDomainTransfrom(), cf = g.isSetConformalTransformASIN();
     if (tr || cf){
         std::vector<double> lo, hi; domain_box(g, lo, hi);
-        std::vector<double> xp = x, xm = x;
+        // one coordinate at a time, the absolute effects summed: perturbing all coordinates at once lets the contributions cancel (seen once in
+        // ~15000 grids with narrow, offset domains: measured sensitivity 100x below the actual rounding effect)
+        std::vector<double> delta((size_t) d), nudge((size_t) d);
+        for(int j=0; j<d; j++){
+            double width = hi[(size_t) j] - lo[(size_t) j];
+            delta[(size_t) j] = 16.0 * eps * (std::fabs(lo[(size_t) j]) + std::fabs(hi[(size_t) j]) + width) + (cf ? 1e-9 * width : 0.0);
+            nudge[(size_t) j] = 8.0 * eps * (std::fabs(lo[(size_t) j]) + std::fabs(hi[(size_t) j]) + width);
+        }
         for(int i=0; i<n; i++) for(int j=0; j<d; j++){
             size_t q = (size_t) i * (size_t) d + (size_t) j;
-            double width = hi[(size_t) j] - lo[(size_t) j];
-            double delta = 16.0 * eps * (std::fabs(lo[(size_t) j]) + std::fabs(hi[(size_t) j]) + width) + (cf ? 1e-9 * width : 0.0);
-            double toward = (x[q] < 0.5 * (lo[(size_t) j] + hi[(size_t) j])) ? 1.0 : -1.0;
-            double nudge = 8.0 * eps * (std::fabs(lo[(size_t) j]) + std::fabs(hi[(size_t) j]) + width);
-            if (x[q] <= lo[(size_t) j] + nudge) xe[q] = lo[(size_t) j] + nudge;
-            if (x[q] >= hi[(size_t) j] - nudge) xe[q] = hi[(size_t) j] - nudge;
-            xp[q] = xe[q] + toward * delta;
-            xm[q] = xe[q] - toward * delta;
-            if (xm[q] < lo[(size_t) j] || xm[q] > hi[(size_t) j]) xm[q] = xe[q] + 2.0 * toward * delta; // stay inside the domain
+            if (x[q] <= lo[(size_t) j] + nudge[(size_t) j]) xe[q] = lo[(size_t) j] + nudge[(size_t) j];
+            if (x[q] >= hi[(size_t) j] - nudge[(size_t) j]) xe[q] = hi[(size_t) j] - nudge[(size_t) j];
         }
         std::vector<double> y0, yp, ym;
-        g.evaluateBatch(xe, y0); g.evaluateBatch(xp, yp); g.evaluateBatch(xm, ym);
-        sens.resize(y0.size());
-        for(size_t q=0; q<y0.size(); q++) sens[q] = std::max(std::fabs(yp[q] - y0[q]), std::fabs(ym[q] - y0[q]));
+        g.evaluateBatch(xe, y0);
+        sens.assign(y0.size(), 0.0);
+        for(int j=0; j<d; j++){
+            std::vector<double> xp = xe, xm = xe;
+            for(int i=0; i<n; i++){
+                size_t q = (size_t) i * (size_t) d + (size_t) j;
+                double toward = (x[q] < 0.5 * (lo[(size_t) j] + hi[(size_t) j])) ? 1.0 : -1.0;
+                xp[q] = xe[q] + toward * delta[(size_t) j];
+                xm[q] = xe[q] - toward * delta[(size_t) j];
+                if (xm[q] < lo[(size_t) j] || xm[q] > hi[(size_t) j]) xm[q] = xe[q] + 2.0 * toward * delta[(size_t) j]; // stay inside the domain
+            }
+            g.evaluateBatch(xp, yp); g.evaluateBatch(xm, ym);
+            for(size_t q=0; q<y0.size(); q++) sens[q] += std::max(std::fabs(yp[q] - y0[q]), std::fabs(ym[q] - y0[q]));
+        }
         c.count("transformed_grids_with_measured_sensitivity");
     }
     auto tol_at = [&](int i, int k)->double{ return tol + (sens.empty() ? 0.0 : 16.0 * sens[(size_t) i * (size_t) m + (size_t) k]); };
